@@ -8,8 +8,6 @@ package c10
 import (
 	"fmt"
 	"os"
-	"runtime"
-	"strings"
 
 	"verifharness/core"
 )
@@ -20,18 +18,6 @@ func randomGroup(gen string) func(c *core.Case) {
 	return func(c *core.Case) {
 		w := genWorld(c.R, gen)
 		k := judge(c, w, gen)
-		if c.I%2000 == 0 && os.Getenv("C10_DEBUG") != "" {
-			var m runtime.MemStats
-			runtime.ReadMemStats(&m)
-			if b, err := os.ReadFile("/proc/self/status"); err == nil {
-				for _, l := range strings.Split(string(b), "\n") {
-					if strings.HasPrefix(l, "VmPeak") || strings.HasPrefix(l, "VmSize") || strings.HasPrefix(l, "VmRSS") || strings.HasPrefix(l, "VmHWM") {
-						fmt.Fprint(os.Stderr, strings.Join(strings.Fields(l), " "), "; ")
-					}
-				}
-			}
-			fmt.Fprintf(os.Stderr, "MEM case=%d heapAlloc=%dMB heapInuse=%dMB heapSys=%dMB sys=%dMB goroutines=%d numGC=%d\n", c.I, m.HeapAlloc>>20, m.HeapInuse>>20, m.HeapSys>>20, m.Sys>>20, runtime.NumGoroutine(), m.NumGC)
-		}
 		if k != nil && c.I < 2 {
 			c.Run.Sample(map[string]interface{}{"generator": gen, "case": c.I, "world": w.witness(), "kvm": summary(k)})
 		}
